@@ -803,3 +803,60 @@ V(id='c34-benign-rename-and-temp', prop='C34', file='mpmath/calculus/odes.py',
          ("        if return_vector:\n            return [+yk for yk in y]\n        else:\n            return +y[0]",
           "        if return_vector:\n            out = [+yk for yk in y]\n            return out\n        else:\n            return +y[0]")],
   expect='silent')
+
+# ---------------------------------------------------------------- C40 -------
+V(id='c40-reader-base-10', prop='C40', file='mpmath/libmp/libmpf.py',
+  old="    return (sign, MPZ(man, 16), exp, bc)", new="    return (sign, MPZ(man, 10), exp, bc)",
+  expect='fire:P-R1:from_pickable')
+V(id='c40-reader-recounts', prop='C40', file='mpmath/libmp/libmpf.py',
+  old="    return (sign, MPZ(man, 16), exp, bc)",
+  new="    man = MPZ(man, 16)\n    return (sign, man, exp, bitcount(man))",
+  expect='fire:P-R1:from_pickable')
+V(id='c40-writer-swaps-fields', prop='C40', file='mpmath/libmp/libmpf.py',
+  old="        return sign, hex(man)[2:], exp, bc", new="        return sign, hex(man)[2:], bc, exp",
+  expect='fire:P-R1:to_pickable')
+V(id='c40-writer-decimal', prop='C40', file='mpmath/libmp/libmpf.py',
+  old="        return sign, hex(man)[2:], exp, bc", new="        return sign, str(man), exp, bc",
+  expect='fire:P-R1:to_pickable')
+V(id='c40-mpc-setstate-swapped', prop='C40', file='mpmath/ctx_mp_python.py',
+  old="        self._mpc_ = from_pickable(val[0]), from_pickable(val[1])",
+  new="        self._mpc_ = from_pickable(val[1]), from_pickable(val[0])",
+  expect='fire:P-R2:_mpc.__setstate__')
+V(id='c40-mpf-setstate-rounds', prop='C40', file='mpmath/ctx_mp_python.py',
+  old="    def __setstate__(self, val): self._mpf_ = from_pickable(val)",
+  new="    def __setstate__(self, val): self._mpf_ = mpf_pos(from_pickable(val), *self.context._prec_rounding)",
+  expect='fire:P-R2:_mpf.__setstate__')
+V(id='c40-mpf-getstate-only', prop='C40', file='mpmath/ctx_mp_python.py',
+  old="    def __setstate__(self, val): self._mpf_ = from_pickable(val)\n", new="",
+  expect='fire:P-R2:_mpf')
+V(id='c40-mpc-reduce-constructor', prop='C40', file='mpmath/ctx_mp_python.py',
+  old="    def __getstate__(self):\n        return to_pickable(self._mpc_[0]), to_pickable(self._mpc_[1])\n",
+  new="    def __reduce__(self):\n        return self.__class__, (self.real, self.imag)\n\n    def __getstate__(self):\n        return to_pickable(self._mpc_[0]), to_pickable(self._mpc_[1])\n",
+  expect='fire:P-R3:_mpc.__reduce__')
+V(id='c40-matrix-not-registered', prop='C40', file='mpmath/__init__.py',
+  old="_matrices_module.matrix = mp.matrix\n", new="", expect='fire:P-R4:MatrixMethods.__init__')
+V(id='c40-mpc-registered-as-mpf', prop='C40', file='mpmath/__init__.py',
+  old="_ctx_mp._mpf_module.mpc = mp.mpc", new="_ctx_mp._mpf_module.mpc = mp.mpf",
+  expect='fire:P-R4')
+V(id='c40-matrix-class-renamed', prop='C40', file='mpmath/matrices/matrices.py',
+  old="        ctx.matrix = type('matrix', (_matrix,), {})", new="        ctx.matrix = type('Matrix', (_matrix,), {})",
+  expect='fire:P-R4:MatrixMethods.__init__')
+V(id='c40-copy-aliases-storage', prop='C40', file='mpmath/matrices/matrices.py',
+  old="        new.__data = self.__data.copy()", new="        new.__data = self.__data",
+  expect='fire:P-R5')
+V(id='c40-copy-hook-removed', prop='C40', file='mpmath/matrices/matrices.py',
+  old="    __copy__ = copy\n", new="", expect='fire:P-R5:_matrix')
+V(id='c40-copy-wrong-shape', prop='C40', file='mpmath/matrices/matrices.py',
+  old="        new = self.ctx.matrix(self.__rows, self.__cols)\n        new.__data = self.__data.copy()",
+  new="        new = self.ctx.matrix(self.__cols, self.__rows)\n        new.__data = self.__data.copy()",
+  expect='fire:P-R5:_matrix.copy')
+V(id='c40-benign-temp-and-dict', prop='C40', file='mpmath/matrices/matrices.py',
+  old="        new.__data = self.__data.copy()", new="        new.__data = dict(self.__data)",
+  expect='silent')
+V(id='c40-benign-reader-temp', prop='C40', file='mpmath/libmp/libmpf.py',
+  old="    return (sign, MPZ(man, 16), exp, bc)", new="    m = MPZ(man, 16)\n    return (sign, m, exp, bc)",
+  expect='silent')
+V(id='c40-benign-copy-returns-self', prop='C40', file='mpmath/ctx_mp_python.py',
+  old="    def __getstate__(self): return to_pickable(self._mpf_)",
+  new="    def __copy__(self): return self\n    def __getstate__(self): return to_pickable(self._mpf_)",
+  expect='silent')
